@@ -3,7 +3,7 @@
    ReadOptions query codec on decoded pairs; decimal numbers as Rust prints/parses them.  All by
    induction on digits/numbers, not enumeration.  Percent-encoding, JSON syntax and the scru128
    text form are oracles (exercised by the codec engine on every run). *)
-From XS Require Import Model.Codec Proofs.CodecP.
+From XS Require Import Model.Codec Model.Json Proofs.CodecP Proofs.JsonP.
 
 Theorem C12_ttl_roundtrip : forall t, ttl_wf t = true -> parse_ttl (ttl_to_string t) = Some t.
 Proof. exact parse_ttl_roundtrip. Qed.
@@ -36,3 +36,54 @@ Print Assumptions C12_read_options_roundtrip.
 Check ro_dup_rejected.      (* a duplicated option is rejected *)
 Check ro_unknown_ignored.   (* unknown keys are ignored *)
 Check ro_of_pairs_wf.       (* whatever parses is in range *)
+
+(* ---- frames: JSON as serde_json writes and reads it (Model/Json.v) ----
+   the printer/parser pair is exact on every value whose nesting stays under the parser's recursion
+   limit, and ONLY on those: *)
+Theorem C12_json_roundtrip : forall v, wf_lex' v = true -> (nest v < recursion_limit)%nat ->
+  parse_json (print_json v) = Some v.
+Proof. exact parse_json_print'. Qed.
+Theorem C12_json_too_deep : forall v, wf_lex' v = true -> (recursion_limit <= nest v)%nat ->
+  parse_json (print_json v) = None.
+Proof. exact parse_json_too_deep'. Qed.
+(* a serde_json::Value (sorted keys) is a fixed point of the BTreeMap normalisation *)
+Theorem C12_value_normal : forall v, wf_value v = true -> normalize v = v.
+Proof. exact normalize_wf. Qed.
+Print Assumptions C12_json_roundtrip.
+Print Assumptions C12_json_too_deep.
+Print Assumptions C12_value_normal.
+
+(* every frame whose meta nests at most 126 levels decodes to the identical frame; a deeper one
+   does not decode at all - deserialize_frame would panic on every later read *)
+Theorem C12_frame_roundtrip : forall print_id parse_id parse_hash (hash_ok : bytes -> Prop),
+  (forall i, i < two128 -> parse_id (print_id i) = Some i) ->
+  (forall h, hash_ok h -> parse_hash h = Some h) ->
+  forall f, wf_frame hash_ok f -> (meta_nest f < 127)%nat ->
+  decode_frame parse_id parse_hash (encode_frame print_id f) = Some f.
+Proof. exact frame_roundtrip. Qed.
+Theorem C12_frame_poison : forall print_id parse_id parse_hash (hash_ok : bytes -> Prop),
+  (forall i, i < two128 -> parse_id (print_id i) = Some i) ->
+  (forall h, hash_ok h -> parse_hash h = Some h) ->
+  forall f, wf_frame hash_ok f -> (127 <= meta_nest f)%nat ->
+  decode_frame parse_id parse_hash (encode_frame print_id f) = None.
+Proof. exact frame_poison. Qed.
+(* the store as fixed (insert_frame refuses a frame whose encoding does not decode): whatever is
+   accepted reads back identically ... *)
+Theorem C12_accepted_reads_back : forall print_id parse_id parse_hash (hash_ok : bytes -> Prop),
+  (forall i, i < two128 -> parse_id (print_id i) = Some i) ->
+  (forall h, hash_ok h -> parse_hash h = Some h) ->
+  forall f, wf_frame hash_ok f -> accept print_id parse_id parse_hash true f = true ->
+  decode_frame parse_id parse_hash (encode_frame print_id f) = Some f.
+Proof. exact accepted_is_readable. Qed.
+(* ... which the pinned insert_frame (no such guard) does not give: a computed witness *)
+Theorem C12_pinned_accepts_poison_refuted : forall print_id parse_id parse_hash (hash_ok : bytes -> Prop),
+  (forall i, i < two128 -> parse_id (print_id i) = Some i) ->
+  (forall h, hash_ok h -> parse_hash h = Some h) ->
+  exists f, wf_frame hash_ok f /\ accept print_id parse_id parse_hash false f = true /\
+            decode_frame parse_id parse_hash (encode_frame print_id f) = None.
+Proof. exact accept_pinned_refuted. Qed.
+Print Assumptions C12_frame_roundtrip.
+Print Assumptions C12_frame_poison.
+Print Assumptions C12_accepted_reads_back.
+Print Assumptions C12_pinned_accepts_poison_refuted.
+Check float_lexeme_ex.
